@@ -78,6 +78,14 @@ class OrdHooks(Hooks):
         return NotImplemented
 
 
+class _AbsentHooks(Hooks):
+    def inline(self, it, fi):
+        return fi.module.name.startswith(T)
+
+    def name(self, it, name, node):
+        return NotImplemented
+
+
 def mk_pair(repo, side, shape):
     """shape: nested tuple of leaf indices, e.g. ('0', '1') or ('0', ('1', '2'))"""
     items = tuple(mk_pair(repo, side, s) if isinstance(s, tuple) else Leaf(side, s) for s in shape)
@@ -344,7 +352,55 @@ def run(repo: Repo, chk: Check) -> None:
         if '__lt__' in ci.methods and '__eq__' not in ci.methods:
             # inherits equality from a parent with the same notion of value
             pass
+        # what __hash__ hashes must be hashable itself: an instance of a class of the package that defines __eq__ without __hash__ is not
+        hm = ci.methods.get('__hash__')
+        if hm is not None:
+            for c in [n for n in ast.walk(hm.node) if isinstance(n, ast.Call) and dotted(n.func) == 'hash' and n.args]:
+                arg = c.args[0]
+                target = None
+                if isinstance(arg, ast.Name) and arg.id in hm.module.assigns and isinstance(hm.module.assigns[arg.id], ast.Call):
+                    target = dotted(hm.module.assigns[arg.id].func)
+                elif isinstance(arg, ast.Call):
+                    target = dotted(arg.func)
+                if not target:
+                    continue
+                kind, obj = repo.lookup(repo.resolve_name(hm.module, target))
+                if kind != 'class':
+                    continue
+                chain = [obj.qualname] + [b for b in repo.mro(obj.qualname) if b in repo.classes]
+                eq_at = next((b for b in chain if '__eq__' in repo.classes[b].methods), None)
+                hash_at = next((b for b in chain if '__hash__' in repo.classes[b].methods), None)
+                unhashable = eq_at is not None and (hash_at is None or chain.index(hash_at) > chain.index(eq_at))
+                chk.ob('R-PAIR', q, not unhashable, f'__hash__ hashes an instance of {obj.name}, which is hashable', hm.loc, {'hashed': norm(arg), 'class': obj.qualname},
+                       what=f'{prim}.__hash__ computes hash({norm(arg)}), an instance of {obj.name}, which defines __eq__ without __hash__ and is therefore unhashable: '
+                            f'a set / map literal with {prim} keys (duplicate test len(set(keys))) raises TypeError')
     chk.minimum('comparable classes defining __eq__', nhash, 7)
+
+    # ---- 5 a value is never equal to an absent component ----------------------------------------------------------------------------------
+    # option / or compare their payloads with `==` while one side may be absent (None of `None`, the Undefined placeholder of the other branch
+    # of an `or`): the composite clauses above ASSUME that a value then compares unequal.  Discharged here for every comparable class by
+    # interpreting its own __eq__ on those operands (directly, and as the reflected operand Python calls for `None == value`).
+    chk.set_clause('C03.5')
+    nabs = 0
+    for q in [MT] + repo.subclasses(MT):
+        ci = repo.classes[q]
+        prim = ci.keywords.get('prim')
+        if prim is None or prim in noncomparable:
+            continue
+        eqm = repo.find_method(q, '__eq__')
+        if eqm is None or eqm.qualname == f'{MT}.__eq__':
+            continue
+        for label, absent in (('None (the empty option)', None), ('Undefined (the other branch of an or)', undefined)):
+            it5 = Interp(repo, _AbsentHooks(), max_depth=3)
+            recv = Obj(q, {'value': Sym('value'), 'item': Sym('item'), 'items': Sym('items')})
+            res5 = it5.run_paths(lambda i, eqm=eqm, recv=recv, absent=absent: i.call_function(FuncRef(eqm, recv, True), [absent], {}, None, force_inline=True))
+            outs = sorted({str(p.value) if p.outcome == 'return' else f'{p.outcome} {vrepr(p.value)[:60]}' for p in res5})
+            ok = bool(res5) and all(p.outcome == 'return' and (p.value is False or vrepr(p.value) == 'NotImplemented') for p in res5)
+            nabs += 1
+            chk.ob('R-GUARD', q, ok, f'{prim}: a value == {label} is False', eqm.loc, {'results': outs},
+                   what=f'{prim}.__eq__ answers {outs[:2]} when the other operand is {label}: COMPARE of `Some v` with `None` (or `Left v` with a `Right`) '
+                        f'reports 0, and sets / map keys of `option {prim}` lose one of the two')
+    chk.minimum('comparable classes x absent operands', nabs, 14)
 
 
 class AddrVal:
